@@ -131,7 +131,23 @@ fn run_optional(ins: &str, iarg: Option<&str>, args: &[P]) -> String {
     out
 }
 
+/// finite opcode table: "<id>=<mnemonic>><id the mnemonic maps back to>" for every opcode that has a mnemonic
+fn opcode_table() -> String {
+    use crate::compilation_bridge::{raw_byte_instruction_to_string_representation as to_name, string_instruction_representation_to_byte as to_id};
+    let mut parts = vec![];
+    for id in 0..=255u8 {
+        if let Some(name) = to_name(id) {
+            let back = to_id(&name).map(|b| b.to_string()).unwrap_or_else(|| "none".to_string());
+            parts.push(format!("{}={}>{}", id, name.replace(' ', "<SP>"), back));
+        }
+    }
+    format!("OK Other {}", parts.join(","))
+}
+
 pub fn eval_ext(op: &str, args: &[P]) -> String {
+    if op == "T:opcodes" {
+        return opcode_table();
+    }
     if let Some(rest) = op.strip_prefix("O:") {
         let mut it = rest.splitn(2, ':');
         let ins = it.next().unwrap();
